@@ -150,6 +150,7 @@ type checker struct {
 	discards  int
 	disCrash  int
 	discardBy map[string]int
+	plain     map[*position]bool // position -> the parser rejects it even for the plain string "a"
 	judged    int
 	mu        sync.Mutex
 	uniq      map[string]string // position|token -> bytes (printed alike check)
@@ -229,6 +230,9 @@ func tail(s string) string {
 // position of this property) and reports a crash of llvm-dis as "LLVM does not read this"
 // instead of aborting the check (llvm-dis 14 crashes on some GC names it does not know).
 func canon(p *position, text string, asOnly bool) (string, bool, string) {
+	if p != nil && p.noLLVM {
+		return disCrashed, true, ""
+	}
 	bc, se, code, err := mbt.Tool([]byte(text), 60*time.Second, "llvm-as", "-o", "-", "-")
 	if err != nil {
 		mbt.Infra("llvm-as: %v", err)
@@ -480,6 +484,24 @@ func firstLine(s string) string {
 	return s
 }
 
+// rejectsPlain reports whether asm.ParseString rejects the position even with the plain name "a".
+func (c *checker) rejectsPlain(p *position) bool {
+	if v, ok := c.plain[p]; ok {
+		return v
+	}
+	tok := map[string]string{"global": "@a", "local": "%a", "type": "%a", "label": "a:", "comdat": "$a", "mdname": "!a", "string": `"a"`}[p.kind]
+	it := item{idx: 7, ord: 0, b: "a"}
+	rejected := false
+	if _, pan := mbt.Guard(func() {
+		_, err := asm.ParseString("c11.ll", p.text([]string{p.strip + tok}, []item{it}))
+		rejected = err != nil
+	}); pan {
+		rejected = false
+	}
+	c.plain[p] = rejected
+	return rejected
+}
+
 // parseBack parses text with the library and compares the bytes at the position.
 func (c *checker) parseBack(dir string, p *position, it item, text, tok string) bool {
 	b := it.b
@@ -489,6 +511,16 @@ func (c *checker) parseBack(dir string, p *position, it item, text, tok string) 
 	if msg, pan := mbt.Guard(func() { m, err = asm.ParseString("c11.ll", text) }); pan {
 		c.rep.Fail(mbt.Failure{Signature: "C11|" + site + "|" + p.name + "|panic|" + shape(b),
 			What: fmt.Sprintf("position %s, %q spelled %s: asm.ParseString panics: %s", p.name, b, tok, mbt.Truncate(msg, 200)), Case: c.kase(dir, p, b)})
+		return false
+	}
+	if err != nil && c.rejectsPlain(p) {
+		// not a matter of escaping: the parser does not accept this position at all
+		sn := p.site
+		if sn == "" {
+			sn = p.name
+		}
+		c.rep.Fail(mbt.Failure{Signature: "C11|" + site + "|" + sn + "|rejected|every string",
+			What: fmt.Sprintf("position %s: the parser rejects what the printer prints here, even for the plain string \"a\" (%q spelled %s): %s", p.name, b, tok, mbt.Truncate(firstLine(err.Error()), 200)), Case: c.kase(dir, p, b)})
 		return false
 	}
 	if err != nil {
@@ -846,7 +878,7 @@ func (c *checker) idsStayIDs() {
 // ---------------------------------------------------------------------------
 // byte strings
 
-var classReps = []byte{'a', 'C', 'z', '5', '2', '$', '-', '.', '_', ' ', '"', '\\', 0x01, 0x7F, 0x80, 0xFF, 0x00}
+var classReps = []byte{'a', 'C', 'z', '5', '2', '$', '-', '.', '_', ' ', '%', '"', '\\', 0x01, 0x7F, 0x80, 0xFF, 0x00}
 
 func stringsOfLen(alphabet []byte, n int) []string {
 	var out []string
@@ -876,6 +908,7 @@ func stringsUpTo(alphabet []byte, n int) []string {
 
 var extras = []string{
 	`\5C`, `\\`, `\2`, `\zz`, `\5z`, `\4_`, `x\5zz`, `\4\4z`, `\\\5z`, `\22`, `a\41b`, `\5c5C`, `\\5C`, `a\`, `\0`, `\00`, `"\22"`, `a"b`, `\"`,
+	"%", "%%", "%s", "%d", "%v", "%!", "a%", "100%", "%!s(MISSING)", "%%%", "%5C", "a%20b", "%\\",
 	"0", "1", "42", "007", "00", "1a", "2b", "1_", "9.5", "1e5", "0x1F", "-1", "-", "a.b", "struct.foo", "a-b$c_d",
 	"4294967295", "4294967296", "9223372036854775807", "9223372036854775808", "18446744073709551615", "18446744073709551616", "99999999999999999999",
 	"世界", "\xE4\xB8", "a b", " a", "a ", "\t", "\r", "a\nb", "ret", "i32", "c", "x", "true", "null", "%a", "@a", "!a", "$a", "a:", "a=b", "a,b", "(a)", "{a}", "#0", ";a", "a;b",
@@ -915,7 +948,7 @@ func Run(tier, replay string) {
 	rep := mbt.NewReport("C11", tier, "model_checking")
 	rep.Rule = "distinct (position, byte string) pairs whose printed token was decoded by TLC with LLVM's lexer rules, read by llvm-as | llvm-dis and parsed back by asm; plus (position, byte string) pairs whose reference spelling was confirmed by LLVM and fed to the real parser; plus direct recordings of the internal/enc encoders"
 	llvmoracle.Require()
-	c := &checker{rep: rep, tier: tier, uniq: map[string]string{}, discardBy: map[string]int{}}
+	c := &checker{rep: rep, tier: tier, uniq: map[string]string{}, discardBy: map[string]int{}, plain: map[*position]bool{}}
 	if replay != "" {
 		runReplay(c, replay)
 		rep.Finish()
@@ -1005,7 +1038,7 @@ func Run(tier, replay string) {
 	}
 	c.codeToSpec(ps, func(p *position) []string {
 		if tier == "quick" {
-			if p.single {
+			if p.single || p.light {
 				return short
 			}
 			if p.name == "global" || p.name == "param" || p.name == "label" {
@@ -1019,10 +1052,10 @@ func Run(tier, replay string) {
 	for _, p := range ps {
 		t1 := time.Now()
 		cases := byKind[p.kind]
-		if p.single && tier == "quick" {
+		if (p.single || p.light) && tier == "quick" {
 			cases = nil
 			for _, g := range byKind[p.kind] {
-				if len(g.b) <= 1 {
+				if len(g.b) <= 1 || !seenExh[g.b] {
 					cases = append(cases, g)
 				}
 			}
@@ -1035,6 +1068,8 @@ func Run(tier, replay string) {
 	c.idsStayIDs()
 
 	total := rep.Evaluations
+	rep.Extra["positions"] = len(positions())
+	rep.Extra["positions_debug_info_fields_skipped"] = skippedPositions
 	rep.Extra["records_discarded_spec_llvm_disagreement"] = c.discards
 	rep.Extra["records_discarded_by_position"] = c.discardBy
 	rep.Extra["records_llvm_as_accepted_but_llvm_dis_crashed"] = c.disCrash
